@@ -57,6 +57,7 @@ package commonmark
 
 //@ func (*Inline).Span
 //@   inlined
+//@   ensures[def] isnil(inline) ? (result.Start == -1 && result.End == -1) : (result.Start == inline.span.Start && result.End == inline.span.End)
 //@   serves C04
 
 //@ func BlockKind.IsCode
@@ -101,6 +102,7 @@ package commonmark
 //@ func Span.Len
 //@   inlined
 //@   ensures[len] result >= 0
+//@   ensures[def] result == ((span.Start >= 0 && span.End >= 0 && span.Start <= span.End) ? span.End - span.Start : 0)
 //@   serves C04
 
 //@ func hasCaseInsensitiveBytePrefix
